@@ -29,7 +29,10 @@ def worker(job: dict) -> dict:
     try:
         seq = seqs.build_sequence(job["seq"])
         n = len(seq.register.qubit_ids)
-        obs = make_observables([{"k": "energy", "times": job["times"]}, {"k": "energy_second_moment", "times": job["times"]}])
+        ospec = [{"k": "energy", "times": job["times"]}, {"k": "energy_second_moment", "times": job["times"]}]
+        if job.get("with_state"):
+            ospec.append({"k": "state", "times": job["times"]})
+        obs = make_observables(ospec)
         out["stage"] = "run"
         _verif.reset()
         _verif.set_sink(ev)
@@ -88,9 +91,15 @@ def worker(job: dict) -> dict:
         tindex = {round(t / T[-1], 12): i for i, t in enumerate(T)}
         E = {tindex[round(float(t), 12)]: float(np.real(v)) for t, v in zip(res.get_result_times("energy"), res.energy) if round(float(t), 12) in tindex}
         E2 = {tindex[round(float(t), 12)]: float(np.real(v)) for t, v in zip(res.get_result_times("energy_second_moment"), res.energy_second_moment) if round(float(t), 12) in tindex}
+        S = {}
+        if job.get("with_state") and "state" in res.get_result_tags():
+            for t, v in zip(res.get_result_times("state"), res.state):
+                if round(float(t), 12) in tindex:
+                    S[tindex[round(float(t), 12)]] = float(v.norm())
         events = []
         prev = None
         worst = 0.0
+        worst_norm = 0.0
         for k in range(K + 1):
             if k in E:
                 steps_between = (k - prev) if prev is not None else 0
@@ -104,12 +113,17 @@ def worker(job: dict) -> dict:
                     extra2 = 4e-5 * hn**2
                 bE = 2 * hn * b_state + 1e-9 * hn
                 bE2 = 2 * hn**2 * b_state + extra2 + 1e-9 * hn**2
+                if job.get("heavy_truncation"):
+                    bE = bE2 = float("inf")   # a binding bond cap / loose precision voids the conservation budget; only the norm is demanded
                 eqE = prev is None or abs(E[k] - E[prev]) <= bE
                 eqE2 = prev is None or k not in E2 or prev not in E2 or abs(E2[k] - E2[prev]) <= bE2
                 if prev is not None:
                     worst = max(worst, abs(E[k] - E[prev]) / bE)
                 nrm = norms.get(k)
-                norm_ok = nrm is None or abs(nrm - 1.0) <= b_norm
+                norm_ok = nrm is None or abs(nrm - 1.0) <= b_norm or bool(job.get("heavy_truncation"))
+                if k in S:   # the REPORTED state must be normalised (the emulators normalise what they hand to observables)
+                    norm_ok = norm_ok and abs(S[k] - 1.0) <= 1e-8
+                    worst_norm = max(worst_norm, abs(S[k] - 1.0))
                 events.append({"ev": "eval", "k": k, "normOK": bool(norm_ok), "hasE": True, "eqE": bool(eqE), "hasE2": k in E2, "eqE2": bool(eqE2)})
                 prev = k
             if k < K:
@@ -117,6 +131,7 @@ def worker(job: dict) -> dict:
                 events.append({"ev": "step", "k": k, "same": bool(same)})
         out["trace"] = events
         out["margin"] = worst
+        out["norm_margin"] = worst_norm
         out["n"], out["K"] = n, K
         out["stage"] = "done"
     except BaseException as e:  # noqa
@@ -162,9 +177,12 @@ def make_jobs(ctx: Ctx, count: int) -> list[dict]:
         nst = int(d // dt)
         ks = sorted(set([0, nst] + rng.sample(range(1, nst), min(4, nst - 1))))
         times = [min(1.0, k * dt / d) for k in ks]
+        heavy = backend == "mps" and n >= 5 and i % 3 == 1
         jobs.append({"id": i + 1, "backend": backend, "seq": spec, "dt": dt, "times": times, "tol": rng.choice([1e-8, 1e-10, 1e-12]),
-                     "precision": rng.choice([1e-5, 1e-7]) if n <= 8 else 1e-5, "max_bond_dim": 1024 if n <= 12 else 32, "reorder": i % 3 != 0,
-                     "seed": ctx.seed * 7919 + i, "strata": {"backend": backend, "n": n, "style": style, "layout": layout, "dt": dt}})
+                     "precision": (rng.choice([1e-5, 1e-7]) if n <= 8 else 1e-5) if not (heavy and i % 2) else 1e-2,
+                     "max_bond_dim": (1024 if n <= 12 else 32) if not heavy else rng.choice([2, 3]), "reorder": i % 3 != 0,
+                     "with_state": (i % 4 in (1, 2)), "heavy_truncation": heavy,
+                     "seed": ctx.seed * 7919 + i, "strata": {"backend": backend, "n": n, "style": style, "layout": layout, "dt": dt, "heavy_truncation": heavy}})
     return jobs
 
 
